@@ -314,6 +314,13 @@ class Translator:
             return True       # `super().method`: a name of the parent class's method, nothing computed
         return isinstance(e, ast.Name)
 
+    @staticmethod
+    def root_name(e):
+        """the leftmost name of an attribute / subscript / call chain (None when there is none)"""
+        while isinstance(e, (ast.Attribute, ast.Subscript, ast.Call, ast.Starred)):
+            e = e.func if isinstance(e, ast.Call) else e.value
+        return e.id if isinstance(e, ast.Name) else None
+
     def root_is_local(self, e, env):
         while isinstance(e, (ast.Attribute, ast.Subscript, ast.Call)):
             e = e.value if not isinstance(e, ast.Call) else e.func
@@ -381,8 +388,10 @@ class Translator:
             return f"(Term.app \"getitem\" [{v}, {s}])"
         if isinstance(e, ast.Attribute):
             akey = "@" + ast.unparse(e.value) + "." + e.attr
-            if akey in env:
-                return env[akey][1]      # the value assigned to this attribute earlier ON THIS PATH (env is per path)
+            if akey in env and (len(env[akey]) < 3 or env[akey][2] is env.get(self.root_name(e.value))):
+                # the value assigned to this attribute earlier ON THIS PATH (env is per path) — only while the receiver
+                # expression still denotes the object the store was made on (the name may have been rebound since)
+                return env[akey][1]
             if self.root_is_local(e.value, env) or not self.is_dotted_name(e.value):
                 return f"(Term.app {lean_str('.' + e.attr)} [{self.term(e.value, env)}])"
             return f"(Term.sym {lean_str(ast.unparse(e))})"
@@ -745,7 +754,7 @@ class Translator:
             val = self.term(s.value, env)
             env2 = dict(env)
             av = f"attr{len(effs)}_{depth}'"
-            env2["@" + ast.unparse(tgt.value) + "." + tgt.attr] = ("term", av)
+            env2["@" + ast.unparse(tgt.value) + "." + tgt.attr] = ("term", av, env.get(self.root_name(tgt.value)))
             return (f"{ind}let {av} : Term := {val};\n"
                     f"{ind}let {v} : Term := (Term.app \"setattr\" [{recv}, (Term.sym {lean_str(tgt.attr)}), {av}]);\n"
                     + self.block(rest, env2, effs + [v], depth))
